@@ -44,6 +44,7 @@ FULL STATEMENT that is NOT reached (kept here as the target):
 -/
 import BV.Lemmas.FragmentQ0
 import BV.Lemmas.FragmentCC3
+import BV.Lemmas.FragmentCCT
 import BV.Props.C01MetaBlock
 
 namespace BV.Props.C01Fragment
@@ -280,5 +281,34 @@ theorem compressed_block_roundtrip_cc_partial (wo : WordOracle) (window : Nat) (
     (by rw [hlen]; exact h1) (by rw [hlen]; have : (2 : Nat) ^ 24 = 16777216 := by decide
                                  omega) hl256 hll (by rw [hlen]; exact hrep) hcc hg hr
   exact ⟨s', bits, ring, e, w, g, htb', r⟩
+
+/-! ## 9. `CreateCommands` returns: the match loop (the part with slice indexing, the hash table, the command /
+literal buffers and the fuel) -/
+
+/-- `match_loop_returns`.  The `while !goto_emit_remainder` loop of the two-pass `CreateCommands` (model
+`matchLoop`: candidate search, both hash-refresh copies, the immediate-match chain) RETURNS under the callers'
+sizes `Sz`: block `[ii, ii + mlen)`, `16 ≤ mlen ≤ input_size`, `ii + input_size ≤ |input| < 2^31`, the search limit
+keeps `min_match` bytes to the block end and 16 bytes to the input end, every hash is a table index (`hashAt_lt`:
+true for a table of `2^table_bits` slots), command and literal buffers of at least `mlen` entries — from every state
+whose table holds earlier positions, whose buffers hold at most one word / literal per byte emitted so far and whose
+`last_distance` is −1 or at most the position.  No `Out.panic` (slice index, buffer capacity, `ip − 3`/`ip − 5`
+underflow) and no `Out.fuel`; the bounds are re-established (so the final insert fits: `final_total`).
+`CreateCommands` itself = one `load64` + this loop + `final_total`; that last composition is stated in
+`BV/Lemmas/FragmentCCT.lean` only up to these two lemmas (see the module note in tools/props.d). -/
+theorem match_loop_returns (inp : Array Nat) (ii mlen inputSize minMatch ipLimit shift T capCmd capLit : Nat)
+    (sz : Sz inp ii mlen inputSize minMatch ipLimit shift T capCmd capLit) (f nh : Nat) (c : CC)
+    (hts : c.table.size = T) (hnh : nh < T) (htb : TB c.table c.ip) (hne : c.nextEmit < c.ip) (hii : ii ≤ c.nextEmit)
+    (hip : c.ip ≤ ii + mlen) (hcm : c.cmds.size ≤ c.nextEmit - ii) (hli : c.lits.size ≤ c.nextEmit - ii)
+    (hld : c.lastDist = -1 ∨ (0 < c.lastDist ∧ c.lastDist ≤ (c.ip : Int))) (hf : 1 ≤ f)
+    (hmeas : ii + mlen + 1 ≤ c.ip + f) :
+    ∃ c', matchLoop inp capCmd capLit shift minMatch (ii + mlen) ipLimit f nh c = .ok c' ∧
+      c'.cmds.size ≤ c'.nextEmit - ii ∧ c'.lits.size ≤ c'.nextEmit - ii ∧ ii ≤ c'.nextEmit ∧
+      c'.nextEmit ≤ ii + mlen :=
+  matchLoop_total inp ii mlen inputSize minMatch ipLimit shift T capCmd capLit sz f nh c hts hnh htb hne hii hip hcm hli
+    hld hf hmeas
+
+/-- the hashes of `CreateCommands` index a table of `2^table_bits` slots (`shift = 64 − table_bits`) -/
+theorem hash_in_table (v off len tb : Nat) (htb : tb ≤ 64) : hashAt v off (64 - tb) len < 2 ^ tb :=
+  hashAt_lt v off (64 - tb) len tb rfl htb
 
 end BV.Props.C01Fragment
